@@ -7,7 +7,7 @@ ID = 'C02'
 RULE = ('cases = generated G-SEL spec (derivation DAGs/cycles, shared options, several choices per node, multiple start '
         'nodes, 0-2 incompatibilities); all orders of taking active selection choices explored through the DSG API as a '
         'DAG of decision sets (<= 1200 states in quick, 20000 in thorough, else truncated and counted as excluded); oracle = closure judged on the '
-        'instance + set equality with R-SEL + same decision set => same state; non-trivial = >= 2 selection choices '
+        'instance + set equality with R-SEL + same decision set => same END state (intermediate states that differ only in pending forced choices are explored separately and counted); non-trivial = >= 2 selection choices '
         'offered at the same time somewhere in the walk, or a shared-option / cycle label, and >= 2 reference '
         'architectures; distinct by sha1(spec)')
 FUZZ_MODULES = ['adsg_core.graph.traversal', 'adsg_core.graph.choices', 'adsg_core.graph.incompatibility', 'adsg_core.graph.influence_matrix']   # thorough tier: atheris campaign over these modules (vf/fuzz.py)
@@ -91,6 +91,8 @@ def _check_case(case, tier='quick', prop=ID):
     lab = set(res.classes)
     res.nontrivial = len(ref) >= 2 and (w.max_parallel >= 2 or 'shared_option' in lab or 'has_cycle' in lab)
     res.classes.append('parallel_choices' if w.max_parallel >= 2 else 'sequential_only')
+    if w.intermediate_differs:
+        res.classes.append('intermediate_state_depends_on_order')
     res.classes.append('ref_empty' if not ref else 'ref_nonempty')
     res.sample = {'spec': spec, 'states': w.states, 'revisits': w.revisits, 'leaves': len(w.leaves),
                   'n_ref_arch': len(ref), 'max_parallel_choices': w.max_parallel}
